@@ -392,7 +392,7 @@ def body(ctx):
                         ctx.finding(sg + "/stratum_not_hit_once", "some stratum of a parameter range holds no sample or several",
                                     {**case, "param": j, "empty_strata": empty, "column": cols[j][:20]})
                 # exact-rational instance on the first parameter of small cases
-                if n <= 12 and it % 3 == 0:
+                if n <= 12 and it % 3 == 0 and dr.perms and dr.unit and len(dr.perms[0]) == n and len(dr.unit[0]) == n:
                     add(f"lhsq {n} {C.rat(pmin[0])} {C.rat(pmax[0])} {C.ilist(dr.perms[0])} [{','.join(C.rat(v) for v in dr.unit[0])}]",
                         "lhsq", cols[0], {**case, "param": 0})
 
@@ -415,9 +415,11 @@ def body(ctx):
             impl = "ok"
         except Exception:
             impl = "err"
+        ctx.count(("lhs_malformed", n, tuple(a), tuple(b)), False, "lhs/malformed/" + impl)
+        if n == 0:
+            continue    # nsamples = 0 is outside the property's sizes: raising or returning an empty sample are both fine
         add(f"lhs {n} {C.flist(a)} {C.flist(b)} [{';'.join(','.join(str(k) for k in p) for p in dr.perms)}] {C.fmat(dr.unit)}",
             "lhs_malformed", impl, {"n": n, "pmin": a, "pmax": b})
-        ctx.count(("lhs_malformed", n, tuple(a), tuple(b)), False, "lhs/malformed/" + impl)
 
     # ================================================================ ppos
     csts = [0.0, 0.5, 0.3, 0.375, 0.3175, 0.4, 0.25, 1e-300, 0.5 - 2.0 ** -54]
@@ -858,7 +860,16 @@ def body(ctx):
                     row = [float(col[name]) if name in col.index else float("nan") for name in lab] + \
                           [float(col[name]) if name in col.index else float("nan") for name in ("mean", "max", "min")]
                 impl.append((g, cnt, row))
-                same = cnt == cnt_a and all((p != p and q != q) or p == q for p, q in zip(row, row_a))
+                # count / min / max exact; percentiles: interpolation of two order statistics, 2 ulp;
+                # mean: another summation order is allowed, budget n * 2^-52 * sum|x| / n (condition-scaled)
+                fin_g = [v for v, c in zip(x, cats) if c == g and v == v and abs(v) != float("inf")]
+                mean_budget = 2.0 ** -52 * sum(abs(v) for v in fin_g)
+
+                def nan_eq(p, q):
+                    return (p != p and q != q) or p == q
+                same = cnt == cnt_a and nan_eq(row[6], row_a[6]) and nan_eq(row[7], row_a[7]) and \
+                    all(nan_eq(p, q) or C.ulp_diff(p, q) <= 2 for p, q in zip(row[:5], row_a[:5])) and \
+                    (nan_eq(row[5], row_a[5]) or abs(row[5] - row_a[5]) <= mean_budget)
                 if not same:
                     sig = f"{tag}/percentile_label_collision" if len(set(lab)) < 5 else f"{tag}/group_differs_from_group_alone"
                     ctx.finding(sig, "group-wise statistics differ from those of the group taken alone"
